@@ -62,7 +62,7 @@ func TestC04(t *testing.T) {
 			}
 		}
 		c.Sample(sampleOf(cs, jobs))
-		return &RunCase{Case: cs, Jobs: jobs}
+		return &RunCase{Case: cs, Jobs: jobs, Model: modelIfSingle(cs, f)}
 	}, stdJudge)
 }
 
@@ -121,7 +121,7 @@ func TestC03(t *testing.T) {
 			}
 		}
 		c.Sample(sampleOf(cs, jobs))
-		return &RunCase{Case: cs, Jobs: jobs}
+		return &RunCase{Case: cs, Jobs: jobs, Model: modelIfSingle(cs, f)}
 	}, stdJudge)
 }
 
@@ -144,7 +144,7 @@ func TestC02(t *testing.T) {
 		cs := caseOf(baseConfig(), []string{f.RelPath}, f)
 		jobs := buildJobs(rt, c, f.Root, progRoot, plan, o, cs)
 		c.Sample(sampleOf(cs, jobs))
-		return &RunCase{Case: cs, Jobs: jobs}
+		return &RunCase{Case: cs, Jobs: jobs, Model: modelIfSingle(cs, f)}
 	}, stdJudge)
 }
 
